@@ -92,6 +92,24 @@ def check_consumer(ctx: Context, rep, rule: str):
            "the consumer loop",
            message="sentinels are counted at exactly one place (a second "
            "place waits for sentinels that may already have been counted)")
+    # protocol messages are told apart from results by the pool's own marker
+    # types only: a mapped function may return any value, including an
+    # exception object, and that is a result
+    lp_classes = set(ctx.repo.module(LP).classes)
+    for t_ in [n for n in body_nodes if n.kind == "test"]:
+        for x in ast.walk(t_.ast):
+            if isinstance(x, ast.Call) and isinstance(x.func, ast.Name) and \
+                    x.func.id == "isinstance" and len(x.args) == 2:
+                types_ = x.args[1].elts if isinstance(
+                    x.args[1], ast.Tuple) else [x.args[1]]
+                names_ = [(dotted(y) or ast.unparse(y)).rsplit(".", 1)[-1]
+                          for y in types_]
+                rep.ob(rule, all(nm in lp_classes for nm in names_),
+                       loc=imap.loc(x), where=imap.qualname,
+                       construct=norm(x),
+                       message="the consumer classifies a dequeued item with "
+                       "a type that ordinary results can have (only the "
+                       "pool's own marker classes may be tested)")
     if len(sent) != 1:
         return puts, ccfg
     s = sent[0]
